@@ -53,6 +53,8 @@ def gen_case(ctx, i):
     F = int(r.integers(1, 5))
     cls = ["single", "bottomup", "centroid", "centered"][i % 4]
     frames = []
+    vid0 = int(r.integers(0, 2)) if cls != "single" else 0
+    Hv, Wv = [(64, 80), (72, 64)][vid0]
     for f in range(F):
         n_an = 1 if cls == "single" else int(r.integers(0, 4))
         if cls == "single" and r.random() < 0.15:
@@ -61,8 +63,16 @@ def gen_case(ctx, i):
         for a in range(n_an):
             c = np.array([r.uniform(18, 46), r.uniform(18, 46)])
             p = c + r.uniform(-12, 12, (n_nodes, 2))
-            kind = str(r.choice(["full", "full", "some", "anchor0", "empty"]))
-            if kind == "some":
+            kind = str(r.choice(["full", "full", "some", "anchor0", "empty", "band"], p=[0.22, 0.22, 0.2, 0.13, 0.13, 0.1]))
+            if kind == "band":  # every node within the last pixels of the right / bottom border, or on row/column 0 (still inside the image)
+                side = int(r.integers(0, 3))
+                if side == 0:
+                    p = np.stack([r.uniform(Wv - 3.5, Wv - 0.5, n_nodes), r.uniform(12, Hv - 12, n_nodes)], -1)
+                elif side == 1:
+                    p = np.stack([r.uniform(12, Wv - 12, n_nodes), r.uniform(Hv - 3.5, Hv - 0.5, n_nodes)], -1)
+                else:
+                    p = np.stack([np.zeros(n_nodes), r.uniform(12, Hv - 12, n_nodes)], -1)
+            elif kind == "some":
                 m = r.random(n_nodes) < 0.4
                 if m.all():
                     m[1] = False
@@ -74,10 +84,7 @@ def gen_case(ctx, i):
             animals.append({"pts": np.round(p * 4) / 4, "pred": False})
         if animals and any(not np.isnan(a["pts"]).all() for a in animals) and r.random() < 0.3 and cls != "single":
             animals.insert(int(r.integers(0, len(animals) + 1)), {"pts": np.round(r.uniform(10, 50, (n_nodes, 2))), "pred": True})
-        frames.append({"video": int(r.integers(0, 2)) if cls != "single" else 0, "frame_idx": f, "animals": animals})
-    if cls != "single" and len({fr["video"] for fr in frames}) > 1:
-        for fr in frames:
-            fr["video"] = frames[0]["video"]  # one video size per label set (no size matching in this check)
+        frames.append({"video": vid0, "frame_idx": f, "animals": animals})  # one video size per label set (no size matching in this check)
     anchor = [None] + list(range(n_nodes))
     seq = [int(x) for x in r.integers(0, 50, int(r.integers(3, 31)))]
     return {"i": i, "cls": cls, "n_nodes": n_nodes, "frames": frames, "anchor": anchor[int(r.integers(0, len(anchor)))], "np_chunks": bool(r.random() < 0.4),
